@@ -783,6 +783,16 @@ func runC08(h *H) {
 		}
 		b, _ = thrift.Marshal(p, wrongA{"zz", "x"})
 		h.DoRisky("thrift.decode", pn, "1", req, hx(b), "err:typeMismatch")
+		// lengths and sizes of 2^63 and above (ten-byte varints): rejected, never a panic or a bogus small size
+		if pn == "c" {
+			for _, big := range []uint64{1 << 63, 1<<63 + 3, 1<<64 - 1, 1<<63 + 1<<31 + 2} {
+				v := putUvarint(big, 0)
+				h.DoRisky("thrift.alloc", pn, `st 1 f A 7468726966743a223122 0 str`, hx(append(append([]byte{0x18}, v...), 'a', 'b', 'c', 0)))
+				h.DoRisky("thrift.alloc", pn, `st 1 f A 7468726966743a223122 0 sl i64`, hx(append(append([]byte{0x19, 0xF6}, v...), 2, 4, 0)))
+				h.DoRisky("thrift.alloc", pn, `st 1 f A 7468726966743a223122 0 map str i32`, hx(append(append([]byte{0x1b}, v...), 0x85, 1, 'k', 2, 0)))
+				h.DoRisky("thrift.decode", pn, "0", `st 1 f A 7468726966743a223122 0 i32`, hx(append(append([]byte{0x88}, v...), 0))) // unknown binary field id 8? (skipped)
+			}
+		}
 		// huge declared sizes in a tiny input
 		lst := `st 1 f A 7468726966743a223122 0 sl i64`
 		for _, sz := range []uint32{0x7fffffff, 0x22000000, 0x80000000, 0xffffffff, 1 << 20} {
